@@ -12,10 +12,11 @@ import time
 
 EXTRA = {"C05-e": ["C12"], "C01-f": ["C12"], "C02-f": ["C01"], "C04-f": ["C09", "C05"], "C04-g": ["C13"], "C13-f": ["C20"], "C15-e": ["C13"]}
 only = set(sys.argv[1:])
+skip = set(os.environ.get("SKIP", "").split())
 t00 = time.time()
 for d in sorted(glob.glob("/verif/seeded/C*")):
     sid = os.path.basename(d)
-    if only and sid not in only and sid.split("-")[1] not in only:
+    if (only and sid not in only and sid.split("-")[1] not in only) or sid in skip:
         continue
     meta = json.load(open(os.path.join(d, "meta.json")))
     if meta.get("superseded"):
